@@ -508,6 +508,7 @@ class Runner:
         self.fault_kind = fault_kind
         self.events = []
         self.ops_done = 0
+        self.held = None        # Identity / Key objects the client keeps across later operations
 
     def viol(self, rule, where, detail):
         comp = 'fault-free' if self.w.st.fault_at is None else self.fault_kind
@@ -536,17 +537,25 @@ class Runner:
                     w.kc = None
                     w.open_store(create=False)
                     self.events.append((idx, 'reopen'))
+                    self.held = None
                     self.check_views(f'after reopen #{idx}')
                     continue
                 if op['op'] == 'crash':
                     w.hard_close()
                     w.open_store(create=False)
                     self.events.append((idx, 'crash-reopen'))
+                    self.held = None
                     w.stats['fault.crash_op'] += 1
                     self.check_views(f'after crash/reopen #{idx}')
                     continue
                 if op['op'] == 'get_signer':
                     self.do_get_signer(idx, o)
+                    continue
+                if op['op'] == 'hold':
+                    self.do_hold(idx, o)
+                    continue
+                if op['op'] == 'use_held':
+                    self.do_use_held(idx)
                     continue
                 if op['op'] == 'probe_deleted_signer':
                     # signer for a certificate (cached by the keychain) -> delete the key -> ask again: must be refused
@@ -992,6 +1001,67 @@ class Runner:
     def default_was_deleted(self, scope, owner):
         return True         # conservative: the model's default-None state already encodes "default deleted or never set"
 
+    # ---- handles kept by the client across later operations -----------------------------------
+    def do_hold(self, idx, o):
+        w = self.w
+        if w.st.fault_at is not None:
+            return
+        i = nb(o['_id'])
+        if i not in w.model.ids:
+            self.events.append((idx, 'hold', 'skipped'))
+            return
+        try:
+            ident = w.kc[o['_id']]
+            kn = sorted(w.model.ids[i]['keys'])[0] if w.model.ids[i]['keys'] else None
+            key = ident[Name.from_bytes(kn)] if kn is not None else None
+        except Exception as e:
+            self.viol('view-raised', innermost_ndn_frame(e), f'hold #{idx}: looking up an existing identity/key raised {exc_brief(e)}')
+            return
+        self.held = {'ident': ident, 'iname': i, 'key': key, 'kname': kn}
+        self.events.append((idx, 'hold', _s(i)))
+
+    def do_use_held(self, idx):
+        """The views are 'scoped to their owner': an Identity / Key object obtained earlier shows the keys / certificates
+        of the identity / key it was obtained for - nothing once that one is deleted, whatever was created since."""
+        w = self.w
+        h = self.held
+        if not h or w.st.fault_at is not None:
+            self.events.append((idx, 'use_held', 'skipped'))
+            return
+        m = w.model
+        w.stats['probe.held_handle_used'] += 1
+        for what, obj, nm in (('identity', h['ident'], h['iname']), ('key', h['key'], h['kname'])):
+            if obj is None:
+                continue
+            if what == 'identity':
+                want = set(m.ids[nm]['keys']) if nm in m.ids else set()
+                alive = nm in m.ids
+            else:
+                _i, rec = _find_key(m, nm)
+                want = set(rec['keys'][nm]['certs']) if rec is not None else set()
+                alive = rec is not None
+            try:
+                got = set(nb(x) for x in obj)
+                ln = len(obj)
+            except Exception as e:
+                self.viol('view-raised', innermost_ndn_frame(e), f'use_held #{idx}: iterating a held {what} object raised {exc_brief(e)}')
+                continue
+            if not alive:
+                w.stats['probe.held_handle_stale'] += 1
+            if got != want or ln != len(want):
+                self.viol('stale-view', what, f'use_held #{idx}: the {what} object obtained earlier for {_s(nm)} '
+                          f'({"still there" if alive else "deleted since"}) lists {sorted(_s(x) for x in got)} (len {ln}); '
+                          f'its owner holds {sorted(_s(x) for x in want)}')
+                continue
+            if not alive:
+                try:
+                    signer = self.lib(w.kc.get_signer, {what: obj})
+                except Exception:
+                    signer = None
+                if signer is not None:
+                    self.viol('signer-for-missing', what + '_held', f'use_held #{idx}: get_signer with the {what} object of the '
+                              f'deleted {_s(nm)} returned a signer')
+
     # ---- get_signer ------------------------------------------------------------------------
     def do_get_signer(self, idx, o):
         w = self.w
@@ -1321,7 +1391,26 @@ def generate(rng, seed, tier='quick'):
                 ops.append({'op': 'get_signer', 'shape': rng.choice(['key', 'key_obj']), 'id': rng.choice(ids),
                             'key': op['key'] + rng.randint(1, 3), 'cert': rng.randint(0, 9), 'key_locator': op['key_locator']})
         elif x < 0.955:
-            ops.append({'op': 'probe_deleted_signer', 'key': rng.randint(0, 7)})
+            if rng.random() < 0.5:
+                ops.append({'op': 'probe_deleted_signer', 'key': rng.randint(0, 7)})
+            elif rng.random() < 0.5:
+                ops.append({'op': 'hold', 'id': rng.choice(ids)})
+            else:
+                ops.append({'op': 'use_held'})
+        elif x < 0.965:
+            # a handle kept across the deletion of its owner and the creation of something else (which may inherit the row)
+            a = rng.choice(ids)
+            b = rng.choice([i for i in ids if i != a] or ids)
+            ops.append({'op': 'touch_identity', 'id': a})
+            nkeys += 1
+            ncerts += 1
+            ops.append({'op': 'hold', 'id': a})
+            ops.append({'op': 'del_identity', 'id': a} if rng.random() < 0.6 else {'op': 'del_key', 'key': -1})
+            ops.append({'op': 'touch_identity', 'id': b} if rng.random() < 0.6 else
+                       {'op': 'new_key', 'id': rng.choice(ids), 'type': 'ec'})
+            nkeys += 1
+            ncerts += 1
+            ops.append({'op': 'use_held'})
         elif x < 0.98:
             ops.append({'op': 'reopen'})
         else:
